@@ -30,10 +30,20 @@ def main():
         i = args.index("--tier"); tier = args[i + 1]; del args[i:i + 2]
     if "--shards" in args:
         i = args.index("--shards"); shards = args[i + 1]; del args[i:i + 2]
+    wt = "--wt" in args
+    if wt:
+        args.remove("--wt")
     seed_dir, seed_id, prop = args[0], args[1], args[2]
+    global REPO
+    if wt:
+        # same protocol in a throw-away worktree of /repo's HEAD (lets several seeds be examined at
+        # once and never disturbs checks running against /repo); removed afterwards
+        REPO = f"/tmp/wtseed_{seed_id}"
+        subprocess.run(["git", "-C", "/repo", "worktree", "remove", "--force", REPO], capture_output=True)
+        subprocess.check_call(["git", "-C", "/repo", "worktree", "add", "--detach", REPO, "HEAD"], stdout=subprocess.DEVNULL, stderr=subprocess.DEVNULL)
     checks = args[3:] or [prop]
     assert subprocess.run(["git", "-C", REPO, "status", "--porcelain"], capture_output=True, text=True).stdout.strip() == "", "repo dirty"
-    meta = {"seed_id": seed_id, "property": prop, "repo_head": subprocess.check_output(["git", "-C", REPO, "log", "--format=%h", "-1"], text=True).strip(),
+    meta = {"seed_id": seed_id, "property": prop, "in_worktree": wt, "repo_head": subprocess.check_output(["git", "-C", REPO, "log", "--format=%h", "-1"], text=True).strip(),
             "ran": []}
     rc0, out0 = run_demo(seed_dir)
     meta["demo_clean_rc"] = rc0
@@ -45,14 +55,17 @@ def main():
         for c in checks:
             cmd = ["/venv/bin/python", f"checks/{c.lower()}.py", "--tier", tier] + (["--shards", shards] if shards else [])
             t = time.time()
-            r = subprocess.run(cmd, cwd=VERIF, capture_output=True, text=True)
+            r = subprocess.run(cmd, cwd=VERIF, capture_output=True, text=True,
+                               env=dict(os.environ, VERIF_REPO=REPO, VERIF_EVIDENCE_DIR=f"/tmp/seed_evidence/{seed_id}"))
             lines = [l for l in r.stdout.splitlines() if l.startswith("VIOLATION") or l.strip().startswith("bucket=")]
             meta["ran"].append({"check": c, "cmd": " ".join(cmd), "rc": r.returncode, "wall_s": round(time.time() - t, 1),
                                 "violations": [l[:300] for l in lines][:12], "summary": r.stdout.strip().splitlines()[-1:] })
             print(c, "rc", r.returncode, *[l[:160] for l in lines[:6]], sep="\n  ")
     finally:
         subprocess.check_call(["git", "-C", REPO, "checkout", "--", "."])
-        # restore evidence files of the checks we ran (they were rewritten against the patched tree)
+        if wt:
+            subprocess.run(["git", "-C", "/repo", "worktree", "remove", "--force", REPO], capture_output=True)
+        shutil.rmtree(f"/tmp/seed_evidence/{seed_id}", ignore_errors=True)
     meta["confirmed"] = (rc0 == 0 and meta.get("demo_patched_rc", 0) != 0)
     meta["caught_by"] = [x["check"] for x in meta["ran"] if x["rc"] == 1]
     dst = os.path.join(VERIF, "seeded", seed_id)
